@@ -252,7 +252,9 @@ class ProgGen:
                 if vs:
                     out.append(["incdec", r.choice(["++", "--"]), r.choice(vs), r.random() < 0.5])
             elif c < 0.58:
-                vecs = [(n_, t) for n_, t in env.items() if t[0] == "vec" and n_ in self.gmap]
+                # single-component swizzle writes: on global vectors, on local copies of them and on
+                # vector parameters (a write through one holder must not show through another)
+                vecs = [(n_, t) for n_, t in env.items() if t[0] == "vec" and n_ not in self.readonly]
                 if vecs:
                     n_, t = r.choice(vecs)
                     out.append(
